@@ -942,8 +942,9 @@ func (t *tScreen) drawCell(x, y int) int {
 		t.cx = -1
 	}
 
-	if x > t.w-width {
-		// too wide to fit; emit a single space instead
+	if x > t.w-width || (width > 1 && t.cells.locked(x+1, y)) {
+		// too wide to fit, or the next column is locked and must not
+		// be painted over; emit a single space instead
 		width = 1
 		str = " "
 	}
